@@ -168,7 +168,11 @@ divp (int x, int y) IMATH_NOEXCEPT
 IMATH_HOSTDEVICE constexpr inline int
 modp (int x, int y) IMATH_NOEXCEPT
 {
-    return x - y * divp (x, y);
+    // The product y * divp (x, y) can lie below INT_MIN by up to |y| - 1
+    // for x near INT_MIN although the result, in [0, |y|), fits an int:
+    // compute it in unsigned arithmetic.
+    return int (
+        (unsigned int) x - (unsigned int) y * (unsigned int) divp (x, y));
 }
 
 //----------------------------------------------------------
